@@ -326,6 +326,13 @@ def t_des_salts(rec, seed, tier, lo, hi, bits):
         c = {"key": (0x0123456789ABCDEF * (s + 1)) & M64, "block": (s * 0x9E3779B97F4A7C15) & M64, "salt": salt, "rounds": 1 + s % 3, "bytes_api": s % 16 == 0}
         o_des(rec, c, soft=True)
         n += 1
+    if lo == 0:
+        # both ends of the salt range of either width, and single-bit salts
+        for salt in [0, 1, 0xFFF, 0x800000, 0xFFFFFE, 0xFFFFFF] + [1 << k for k in range(24)]:
+            if bits == 12 and salt > 0xFFF:
+                continue
+            o_des(rec, {"key": 0x0123456789ABCDEF, "block": 0xFEDCBA9876543210, "salt": salt, "rounds": 2, "bytes_api": True}, soft=True)
+            n += 1
     rec.ev(n)
     rec.nt_bulk(n)
     rec.count(f"des:salts{bits}", n)
